@@ -43,6 +43,7 @@ SEMANTIC = [  # (query, equivalent query)
 ]
 CTX_QUERIES = ["$[?@.a == _.x]", "$[?_.flag]", "$[?@[?@ == _.x.y]]", "$[?$.a[?@ == _.v]]", "$..[?@.k == _.v]", "$[?@.xs[?@.ys[?@ == _.v]]]", "$[?_.list contains @.a]", "$[?@.a in _.list]",
                "$..xs[?@.k == _.v]", "$..[?@.ys[?@ == _.v]]", "$.xs..[?@ == _.v]", "$..*[?@ == _.x.y]", "$..a..[?@ == _.x.y]", "$..[?@.a == _.x.y].b", "$[*]..[?@ == _.v]",
+               "$[?@.a == _.x.y] | $[?@.a != _.x.y]", "$[?@.k == _.v] & $[?_.flag]", "$..[?@ == _.v] | ^[?_.flag]", "$.xs[?@.k == _.v] & $.xs[*] | $.list[?@ == _.v]",
                "$[0, ?_.flag]", "$[?count(_.list[*]) == 2 && @.a]", "$[?length(_.x) == 1 || @.k == _.v]"]
 KEY_QUERIES = ["$.~", "$[~]", "$..~", "$.a.~", "$[*].~", "$[~, a]", "$..[~]", "$.xs[*].~", "$[?@.~]"]
 HASH_QUERIES = ["$[?# == 'a']", "$[?# == 0]", "$[?# > 0]", "$..[?# == 'k']", "$[?# in ['a', 'b']]", "$[?@[?# == 1]]", "$[?# == 'a' && @ == 1]", "$.xs[?# == 1]", "$[0, ?# == 'b']"]
@@ -122,6 +123,12 @@ def evaluate(ctx, cases):
         mod = [[n["path"], n["val"]] for n in m["nodes"]]
         if got["ok"] != mod:
             ctx.mismatch("q.finditer", inp, got["ok"][:6], mod[:6])
+        if kind in ("ctx", "pool", "key", "keys", "fake") and (kind == "ctx" or ctx.rng.random() < 0.3):
+            # the same question through every public entry point (module-level and compiled, sync and async,
+            # keyword and positional filter context)
+            ctx.count("entry-points")
+            qeval.compare_entry_points(ctx, c["text"], compiled, doc, extra, got["ok"],
+                                       "an extension query must mean the same through every entry point (the filter context is forwarded by each)", inp)
         if kind in ("alias", "equiv", "member"):
             so = qeval.compile_outcome(c["std"])
             if "err" in so:
